@@ -6,6 +6,7 @@
 (*  feature [fid, v, present]                                              *)
 (*  policy  [route, method, caller, ovrule, ovkind, status, admin_status,  *)
 (*           changed, leaked]                                              *)
+(*  scope   [caller, projs, status, data]   GET /usages naming projects    *)
 (***************************************************************************)
 EXTENDS Surface, Json, IOUtils
 
@@ -41,11 +42,26 @@ PolicyVerdict(ln) ==
        \cup (IF ln.changed THEN {"C16_denied_request_changed_state"} ELSE {})
        \cup (IF ln.leaked THEN {"C16_denied_response_leaks_data"} ELSE {})
 
+\* GET /usages: "a reader of the project queried".  A caller that passes the
+\* default rule only through its project-scoped part obtains usages of its own
+\* project or nothing, however the query names projects.
+ScopeVerdict(ln) ==
+  LET named == {ln.projs[k] : k \in DOMAIN ln.projs}
+      unscoped == "admin" \in RolesOf(ln.caller) \/ "service" \in RolesOf(ln.caller)
+      scoped == ~unscoped /\ "reader" \in RolesOf(ln.caller) IN
+  IF unscoped THEN (IF ln.status \in {401, 403} THEN {"C16_allowed_caller_refused"} ELSE {})
+  ELSE (IF ln.status < 300 /\ ln.data \in {"other", "mixed"} THEN {"C16_usages_of_another_project_obtained"} ELSE {})
+  \cup (IF ~scoped /\ ln.status # 403 THEN {"C16_denied_caller_not_403"} ELSE {})
+  \cup (IF scoped /\ named = {"other"} /\ ln.status # 403 THEN {"C16_denied_caller_not_403"} ELSE {})
+  \cup (IF scoped /\ named = {"own"} /\ ln.status \in {401, 403} THEN {"C16_allowed_caller_refused"} ELSE {})
+  \cup (IF scoped /\ ln.status \notin {200, 400, 403} THEN {"C16_denied_caller_not_403"} ELSE {})
+
 Init == i = 1
 Next == /\ i <= Len(Log)
         /\ PrintT(<<"UV", Log[i].id,
                     CASE Log[i].kind = "route" -> RouteVerdict(Log[i])
                       [] Log[i].kind = "feature" -> FeatureVerdict(Log[i])
+                      [] Log[i].kind = "scope" -> ScopeVerdict(Log[i])
                       [] OTHER -> PolicyVerdict(Log[i])>>)
         /\ i' = i + 1
         /\ TLCSet(1, i)
